@@ -37,6 +37,9 @@ TEMPLATES = ["{a} + {b}", "{a} + [4]", "{a} + \"4]\"", "[*{a}, 4]", "[*{a}, *{b}
              "{a} == {b}", "{a} != {b}", "[{a}] == [{b}]", "{{k: {a}}} == {{k: {b}}}", "%{{1: {a}}} == %{{1: {b}}}", "[{a}, {b}].has?({b})", "{a} === {b}", "{a}.case(%{{{b}: 1}})",
              "[{a}, {b}].uniq", "[{a}, {b}].index({b})", "[{b}, {a}].tally",
              # a literal's own non-scalar pairs before a `**` operand: some of the operand's pairs are dropped as duplicates, the rest kept
+             # one value used as the chain argument of two chains whose results are both still referenced
+             "keep({b}@({a}){{|x| x}}) + keep({b}@({a}){{|x| [x]}})", "keep({b}@({a})S) + keep({b}@({a})repr)", "[keep([1]@({a}){{|x| x}}), keep([2, 3]@({a}){{|x| x}}), keep([4]=@({a}){{|x| x}})]",
+             "[keep({a}.patch(v: 0)), keep({b}.patch(v: 0)), [{a}, {b}]@patch(v: 0)]",
              "%{{[1]: 0, **{a}}}", "%{{[2]: 0, [9]: 1, **{a}}}", "%{{**{b}, [2]: 0, **{a}}}", "{{y: 0, **{a}}}", "[*{a}][1:]"]
 
 
